@@ -57,7 +57,7 @@ func firstRepoFrame(stack string) (string, bool) { return repoFrame(stack, false
 func repoFrame(stack string, skipSimrt bool) (string, bool) {
 	for _, m := range reFrame.FindAllStringSubmatch(stack, -1) {
 		fn, file := m[1], m[2]
-		if !strings.HasPrefix(file, "/repo/") {
+		if !strings.HasPrefix(file, *fRepo+"/") {
 			continue
 		}
 		if skipSimrt && strings.Contains(file, "/internal/simrt/") {
